@@ -43,7 +43,7 @@ Definition step_spec (c : cfgT) (w : wobs) (s : step) : bool :=
         | Dir => true
         | _ => opt_beq node_beq (fs_get f' (fst e)) (Some (snd e))
                || opt_beq node_beq (fs_get f' (removed ++ rel_suffix d (fst e))) (Some (snd e))
-        end) (filter (fun e => at_or_under d (fst e)) f)
+        end) user_data
       (* deleted outright only if nothing beyond what add created *)
       && (match s_res s, user_data with
           | ROk, _ :: _ => exists_ f' removed
